@@ -1,4 +1,175 @@
-import MgpuModel.C13
+import MgpuProofs.C13
+import MgpuProofs.C13Layout
+/-!
+# C13 — loading a kernel yields exactly its code and metadata
+
+All statements are about `C13.loadKernel` & co. in `MgpuModel/C13.lean`, the
+transcription of `amd/insts/hsaco.go` that the driver executes against the real
+loader on every run (all shipped `.hsaco` files and synthetic ELF objects).
+-/
 namespace C13
-theorem placeholder : isV2V3Header [] = false := by decide
+
+/-- the byte range of the kernel symbol inside `.text` -/
+def symRange (text : Section) (td : Bytes) (s : Symbol) : Bytes :=
+  (td.drop (wrapSub s.value text.addr)).take s.size
+
+/-- **bytes_exact.** A successful load by name returns the bytes of the kernel's symbol
+range `text[sym.value − text.addr, +size)` — the first kernel symbol with that name —
+and drops the first 256 bytes **iff** those bytes pass `isV2V3Header` and no usable
+`<k>.kd` descriptor exists. Nothing else is ever removed or added. -/
+theorem bytes_exact (v : View) (syms : List Symbol) (k : String) (r : Loaded)
+    (hsy : v.symbols = some syms) (hk : k ≠ "")
+    (hsz : ∀ s ∈ syms, s.size < U64 ∧ s.value < U64)
+    (h : loadKernel v k = .ok r) :
+    ∃ text td s, findSection v.sections ".text" = some text ∧ text.data = some td ∧
+      (syms.filter (isKernelSym v.sections)).find? (·.name == k) = some s ∧ r.sym = some s ∧
+      wrapSub s.value text.addr + s.size ≤ td.length ∧
+      (r.data = (symRange text td s).drop 256 ↔
+        (findV5 v.sections k syms = .none ∧ isV2V3Header (symRange text td s) = true)) ∧
+      (r.data = symRange text td s ∨ r.data = (symRange text td s).drop 256) := by
+  unfold loadKernel at h
+  rw [hsy] at h
+  cases ht : findSection v.sections ".text" with
+  | none => simp [ht] at h
+  | some text =>
+    cases htd : text.data with
+    | none => simp [ht, htd] at h
+    | some td =>
+      simp only [ht, htd, hk, if_false] at h
+      unfold loadNamed at h
+      cases hf : (syms.filter (isKernelSym v.sections)).find? (·.name == k) with
+      | none => simp [hf] at h
+      | some s =>
+        have hsm : s ∈ syms := (List.mem_filter.mp (List.mem_of_find?_eq_some hf)).1
+        have hkern : isKernelSym v.sections s = true := (List.mem_filter.mp (List.mem_of_find?_eq_some hf)).2
+        have hpos : s.size > 0 := by
+          unfold isKernelSym at hkern
+          cases hs : v.sections[s.shndx]? <;> simp [hs] at hkern
+          exact hkern.2.2
+        simp only [hf] at h
+        cases hsl : sliceU64 td (wrapSub s.value text.addr) s.size with
+        | none => simp [hsl] at h
+        | some kdata =>
+          have ho : wrapSub s.value text.addr < U64 := wrapSub_lt (hsz s hsm).2
+          obtain ⟨hle, hkd, hlen⟩ := sliceU64_some ho (hsz s hsm).1 hsl
+          have hkd' : kdata = symRange text td s := hkd
+          have hne : ∀ x : Bytes, x.length = s.size → x.drop 256 ≠ x := by
+            intro x hx he
+            have := congrArg List.length he
+            simp only [List.length_drop] at this
+            omega
+          simp only [hsl] at h
+          refine ⟨text, td, s, rfl, htd, rfl, ?_, hle, ?_, ?_⟩
+          · cases hv : findV5 v.sections k syms <;> simp only [hv] at h
+            · unfold fromEntireText at h
+              split at h
+              · split at h
+                · cases h
+                · simp only [withSym] at h; injection h with h; subst h; rfl
+              · simp only [withSym] at h; injection h with h; subst h; rfl
+            · cases h
+            · injection h with h; subst h; rfl
+          · rw [← hkd']
+            cases hv : findV5 v.sections k syms <;> simp only [hv] at h
+            · unfold fromEntireText at h
+              split at h
+              · rename_i hc
+                split at h
+                · cases h
+                · simp only [withSym] at h; injection h with h; subst h
+                  simp only [Bool.and_eq_true] at hc
+                  simp [hc.2]
+              · rename_i hc
+                simp only [withSym] at h; injection h with h; subst h
+                have hl : ¬ isV2V3Header kdata = true := by
+                  intro hi
+                  apply hc
+                  have : 256 ≤ kdata.length := by
+                    unfold isV2V3Header at hi
+                    split at hi
+                    · cases hi
+                    · omega
+                  simp [hi, this]
+                constructor
+                · intro he; exact absurd he.symm (hne kdata hlen)
+                · intro hh; exact absurd hh.2 hl
+            · cases h
+            · injection h with h; subst h
+              constructor
+              · intro he; exact absurd he.symm (hne kdata hlen)
+              · intro hh; cases hh.1
+          · rw [← hkd']
+            cases hv : findV5 v.sections k syms <;> simp only [hv] at h
+            · unfold fromEntireText at h
+              split at h
+              · split at h
+                · cases h
+                · simp only [withSym] at h; injection h with h; subst h; exact Or.inr rfl
+              · simp only [withSym] at h; injection h with h; subst h; exact Or.inl rfl
+            · cases h
+            · injection h with h; subst h; exact Or.inl rfl
+
+/-- **v5_precedence.** When a descriptor is found for the name, the result is the whole
+symbol range (never stripped, even if the bytes form a complete V2/V3 header), version 5,
+and the metadata is the descriptor's, raised by the register-count symbols. -/
+theorem v5_precedence (secs : List Section) (text : Section) (td : Bytes) (syms : List Symbol)
+    (k : String) (s : Symbol) (m : Meta)
+    (hs : (syms.filter (isKernelSym secs)).find? (·.name == k) = some s)
+    (hin : wrapSub s.value text.addr + s.size ≤ td.length) (htl : td.length < U64)
+    (hv : findV5 secs k syms = .found m) :
+    loadNamed secs text td syms k =
+      .ok { data := symRange text td s, md := overrideRegs k m syms, version := 5, sym := some s } := by
+  unfold loadNamed
+  simp only [hs, sliceU64_ok hin htl, hv]
+  rfl
+
+/-- the symbols the loader can look at when asked for kernel `k` -/
+def relevant (k : String) (s : Symbol) : Bool :=
+  s.name == k || s.name == k ++ ".kd" || s.name == k ++ ".numbered_sgpr" || s.name == k ++ ".num_vgpr"
+
+/-- **order_and_neighbours_irrelevant.** Two symbol tables over the same sections whose
+symbols named `k`, `k.kd`, `k.numbered_sgpr`, `k.num_vgpr` are the same up to order (and
+carry unique names) give the same result for `k`: any permutation of the table and any
+addition or removal of other symbols — other kernels, their descriptors, their register
+symbols — changes nothing. (The register overrides are a maximum, see `overrideRegs_max`,
+so even repeated `k.numbered_sgpr` symbols would be order-free; the *name lookups* are
+first-match, which is why unique names are required.) -/
+theorem order_and_neighbours_irrelevant (secs : List Section) (l1 l2 : List Symbol) (k : String)
+    (hk : k ≠ "")
+    (hp : (l1.filter (relevant k)).Perm (l2.filter (relevant k)))
+    (hu : ((l1.filter (relevant k)).map (·.name)).Nodup) :
+    loadKernel ⟨secs, some l1⟩ k = loadKernel ⟨secs, some l2⟩ k := by
+  have e1 : (l1.filter (isKernelSym secs)).find? (·.name == k) = (l2.filter (isKernelSym secs)).find? (·.name == k) := by
+    rw [kernel_find?_eq, kernel_find?_eq,
+      filter_name_eq_of_perm (relevant k) k l1 l2 (by intro s h; simp [relevant, h]) hp hu]
+  have e2 : l1.find? (fun s => s.name == k ++ ".kd" && s.size == 64) = l2.find? (fun s => s.name == k ++ ".kd" && s.size == 64) := by
+    rw [find?_filter_name, find?_filter_name,
+      filter_name_eq_of_perm (relevant k) (k ++ ".kd") l1 l2 (by intro s h; simp [relevant, h]) hp hu]
+  have e3 : ∀ m, overrideRegs k m l1 = overrideRegs k m l2 := by
+    intro m
+    rw [overrideRegs_filter k l1, overrideRegs_filter k l2]
+    apply overrideRegs_perm
+    have hsub : ∀ l : List Symbol, l.filter (regRelevant k) = (l.filter (relevant k)).filter (regRelevant k) := by
+      intro l
+      rw [List.filter_filter]
+      apply List.filter_congr
+      intro s _
+      unfold regRelevant relevant
+      cases (s.name == k) <;> cases (s.name == k ++ ".kd") <;> cases (s.name == k ++ ".numbered_sgpr") <;>
+        cases (s.name == k ++ ".num_vgpr") <;> rfl
+    rw [hsub l1, hsub l2]
+    exact hp.filter _
+  have hN : ∀ text td, loadNamed secs text td l1 k = loadNamed secs text td l2 k := by
+    intro text td
+    unfold loadNamed findV5
+    simp only [e1, e2, e3]
+  unfold loadKernel
+  simp only [hk, if_false, hN]
+
+/-- the override really is "maximum wins", not "last wins" -/
+theorem overrides_are_a_maximum (k : String) (syms : List Symbol) (m : Meta) :
+    (overrideRegs k m syms).wfSgpr = syms.foldl (fun a s => max a (sgprContribution k s)) m.wfSgpr ∧
+    (overrideRegs k m syms).wiVgpr = syms.foldl (fun a s => max a (vgprContribution k s)) m.wiVgpr := by
+  rw [overrideRegs_max]; exact ⟨rfl, rfl⟩
+
 end C13
